@@ -48,6 +48,10 @@ concatenate = lambda arr_list, axis=0: concatenate_args(axis, *arr_list)
 vstack = row_stack = lambda tup: concatenate([atleast_2d(_m) for _m in tup], axis=0)
 
 
+def dstack(tup):
+    return concatenate([atleast_3d(_m) for _m in tup], axis=2)
+
+
 def hstack(tup):
     arrs = [atleast_1d(_m) for _m in tup]
     if arrs[0].ndim == 1:
